@@ -117,7 +117,8 @@ def erg_binary():
     scratch root so /repo/target is never touched)"""
     td = os.path.join(scratch_root(), "erg-target")
     t = time.time()
-    rc, out, err = sh(["cargo", "build", "--offline", "--target-dir", td], cwd=REPO, timeout=3600)
+    env = dict(BASE_ENV, CARGO_PROFILE_DEV_DEBUG="0", RUSTFLAGS="-Awarnings")
+    rc, out, err = sh(["cargo", "build", "--offline", "--target-dir", td], cwd=REPO, timeout=3600, env=env)
     log(f"[build] erg CLI rc={rc} {time.time()-t:.1f}s")
     return rc == 0, (out + err)[-4000:], os.path.join(td, "debug", "erg")
 
